@@ -18,6 +18,7 @@ import (
 	"fmt"
 	"sort"
 	"strings"
+	"sync"
 	"time"
 
 	gmsl "github.com/matrix-org/gomatrixserverlib"
@@ -276,19 +277,56 @@ func c09Meta(i int, raw json.RawMessage, seed int) Result {
 			room := c.All[0].RoomID().String()
 			ver := sc.Ver
 			ids := newAuthIDs(ver, sc.CTag)
-			var extra []gmsl.PDU
-			for n, spec := range []eventSpec{
-				{Type: "m.room.topic", StateKey: strp(""), Sender: userIDs["creator"], Content: map[string]interface{}{"topic": "t"}},
-				{Type: "m.room.member", StateKey: strp("@zed:hs3"), Sender: "@zed:hs3", Content: map[string]interface{}{"membership": "ban"}},
-				{Type: "m.room.third_party_invite", StateKey: strp("unrelated-token"), Sender: userIDs["creator"], Content: map[string]interface{}{"display_name": "n"}},
-				{Type: "org.verif.other", StateKey: strp("k"), Sender: userIDs["creator"], Content: map[string]interface{}{}},
-			} {
-				spec.Ver, spec.ID, spec.RoomID, spec.Depth, spec.TS = ver, ids.id(fmt.Sprintf("pad%d", n)), room, 30, 30
-				spec.Prev = []string{ids.id("someprev")}
-				extra = append(extra, spec.mustBuild())
-			}
-			if g := verdict(append(append([]gmsl.PDU{}, c.All...), realise(extra)...)); g != sc.Want {
+			// (the pads are the same events for every record of a room version, room and ID shape: built once)
+			extra := c09CachedPads("plain", ver, sc.CTag, room, mode.IDMode, func() []gmsl.PDU {
+				var extra []gmsl.PDU
+				for n, spec := range []eventSpec{
+					{Type: "m.room.topic", StateKey: strp(""), Sender: userIDs["creator"], Content: map[string]interface{}{"topic": "t"}},
+					{Type: "m.room.member", StateKey: strp("@zed:hs3"), Sender: "@zed:hs3", Content: map[string]interface{}{"membership": "ban"}},
+					{Type: "m.room.third_party_invite", StateKey: strp("unrelated-token"), Sender: userIDs["creator"], Content: map[string]interface{}{"display_name": "n"}},
+					{Type: "org.verif.other", StateKey: strp("k"), Sender: userIDs["creator"], Content: map[string]interface{}{}},
+				} {
+					spec.Ver, spec.ID, spec.RoomID, spec.Depth, spec.TS = ver, ids.id(fmt.Sprintf("pad%d", n)), room, 30, 30
+					spec.Prev = []string{ids.id("someprev")}
+					extra = append(extra, spec.mustBuild())
+				}
+				return realise(extra)
+			})
+			if g := verdict(append(append([]gmsl.PDU{}, c.All...), extra...)); g != sc.Want {
 				return fail("padded", g)
+			}
+			// un-needed state of a TYPE the rules name under ANOTHER state key (a power-levels-typed event keyed "draft"
+			// is ordinary room state, not the room's power levels), and kinds that do not cross (a third-party invite
+			// keyed by a user ID, a member event keyed by ""), each saying the opposite of the real one: handed to the
+			// provider before the real state, after it, or each right after the real event of its type
+			odd := c09CachedPads("odd", ver, sc.CTag, room, mode.IDMode, func() []gmsl.PDU { return realise(c09OddPads(ver, ids, room, 40)) })
+			var padded []gmsl.PDU
+			where := ""
+			switch ((variant % 3) + 3) % 3 {
+			case 0:
+				where = "after"
+				padded = append(append(padded, c.All...), odd...)
+			case 1:
+				where = "before"
+				padded = append(append(padded, odd...), c.All...)
+			default:
+				where = "interleaved"
+				for _, p := range c.All {
+					padded = append(padded, p)
+					for _, o := range odd {
+						if o.Type() == p.Type() && p.StateKeyEquals("") {
+							padded = append(padded, o)
+						}
+					}
+				}
+				for _, o := range odd {
+					if o.Type() == "m.room.member" || o.Type() == "m.room.third_party_invite" {
+						padded = append(padded, o)
+					}
+				}
+			}
+			if g := verdict(padded); g != sc.Want {
+				return fail("padded-same-type-other-state-key-"+where, g)
 			}
 		}
 	}
@@ -322,7 +360,33 @@ func c09Meta(i int, raw json.RawMessage, seed int) Result {
 			SenderID: string(c.Event.SenderID()), RoomID: c.Event.RoomID().String(), Type: c.Event.Type(), StateKey: c.Event.StateKey(),
 			PrevEvents: c.Event.PrevEventIDs(), Depth: 20, Content: spec.RawJSON(c.Event.Content()), Redacts: c.Event.Redacts(),
 		})
-		if err := eb.AddAuthEvents(full); err == nil {
+		// the provider the builder looks the state up in: the whole state, exactly the needed state, or - where the room
+		// ID names the create event - the needed state without the create event (as PerformInvite looks it up)
+		from, fromName := gmsl.AuthEventProvider(full), "the full state"
+		if m := ((variant/3)%3 + 3) % 3; m > 0 {
+			needed := map[gmsl.StateKeyTuple]bool{}
+			for _, t := range gmsl.StateNeededForAuth([]gmsl.PDU{c.Event}).Tuples() {
+				needed[t] = true
+			}
+			fromName = "exactly the needed state"
+			if m == 2 && isDomainless(sc.Ver) {
+				delete(needed, gmsl.StateKeyTuple{EventType: "m.room.create", StateKey: ""})
+				fromName = "the needed state without the create event"
+			}
+			var part []gmsl.PDU
+			for j := range c.All {
+				p := c.All[len(c.All)-1-j]
+				if needed[gmsl.StateKeyTuple{EventType: p.Type(), StateKey: *p.StateKey()}] {
+					part = append(part, p)
+				}
+			}
+			ap, err := gmsl.NewAuthEvents(part)
+			if err != nil {
+				panic(err)
+			}
+			from = ap
+		}
+		if err := eb.AddAuthEvents(from); err == nil {
 			_, priv := keyFromSeed("c09-builder")
 			built, err := eb.Build(time.Unix(1700000000, 0), spec.ServerName(domainOfID(string(c.Event.SenderID()))), "ed25519:1", priv)
 			if err == nil {
@@ -350,7 +414,7 @@ func c09Meta(i int, raw json.RawMessage, seed int) Result {
 					}
 					sort.Strings(ids)
 					return Result{OK: false, Key: fmt.Sprintf("C09/meta/addauthevents/%s", key), Want: gotFull, Got: gotSel,
-						What: fmt.Sprintf("an event built with AddAuthEvents is judged %v against its selected auth events %v but %v against the full state (%s, room version %s, %s)", gotSel, ids, gotFull, key, sc.Ver, idShape)}
+						What: fmt.Sprintf("an event built with AddAuthEvents over %s is judged %v against its selected auth events %v but %v against the full state (%s, room version %s, %s)", fromName, gotSel, ids, gotFull, key, sc.Ver, idShape)}
 				}
 			}
 		}
@@ -365,4 +429,35 @@ func domainOfID(id string) string {
 		}
 	}
 	return "hs1"
+}
+
+// c09OddPads: state events that no accessor of a provider may ever answer with - a type the auth rules name under a
+// state key they do not, or a state key an accessor uses under another type - each contradicting the real event.
+func c09OddPads(ver string, ids authIDs, room string, depth int64) []gmsl.PDU {
+	creator := userIDs["creator"]
+	var out []gmsl.PDU
+	for n, es := range []eventSpec{
+		{Type: "m.room.power_levels", StateKey: strp("draft"), Sender: creator, Content: json.RawMessage(`{"users_default":100,"state_default":0,"events_default":0,"invite":0,"kick":0,"ban":0,"redact":0}`)},
+		{Type: "m.room.join_rules", StateKey: strp("proposal"), Sender: creator, Content: map[string]interface{}{"join_rule": "public"}},
+		{Type: "m.room.create", StateKey: strp("again"), Sender: "@zed:hs3", Content: map[string]interface{}{"creator": "@zed:hs3", "room_version": ver, "m.federate": false, "additional_creators": []string{userIDs["alice"], userIDs["bob"], userIDs["carol"]}}},
+		{Type: "m.room.member", StateKey: strp(""), Sender: creator, Content: map[string]interface{}{"membership": "ban"}},
+		{Type: "m.room.third_party_invite", StateKey: strp(userIDs["bob"]), Sender: creator, Content: map[string]interface{}{"display_name": "n"}},
+	} {
+		es.Ver, es.ID, es.RoomID, es.Depth, es.TS = ver, ids.id(fmt.Sprintf("oddpad%d", n)), room, depth, depth
+		es.Prev = []string{ids.id("someprev")}
+		out = append(out, es.mustBuild())
+	}
+	return out
+}
+
+var c09PadCache sync.Map
+
+// c09CachedPads builds a list of padding events once per (kind, room version, create tag, room, ID shape).
+func c09CachedPads(kind, ver string, ctag int, room, idmode string, build func() []gmsl.PDU) []gmsl.PDU {
+	k := fmt.Sprintf("%s|%s|%d|%s|%s", kind, ver, ctag, room, idmode)
+	if v, ok := c09PadCache.Load(k); ok {
+		return v.([]gmsl.PDU)
+	}
+	v, _ := c09PadCache.LoadOrStore(k, build())
+	return v.([]gmsl.PDU)
 }
